@@ -41,6 +41,8 @@ def partitions(tier):
                 top = M.INTERNAL_MAX[old]
                 for lo_t in range(0, top + 1, 2):
                     hi_t = min(top, lo_t + 1)
+                    if lo_t == hi_t == 14 and old in ("1.4", "1.5") and new in ("2.0", "2.1", "2.2"):
+                        continue  # gateway-ready is excluded across 1.x -> 2.x: the window would be empty
                     wakes = any(lo_t <= w <= hi_t for w in (22, 32))  # parked commands only matter for the wake types
                     parts.append(dict(ids, name="recv-%s-%s-cmd3-t%d" % (old, new_name, lo_t), fn="sym_recv", old=old, new=new, cmd=3,
                                       tlo=lo_t, thi=hi_t, maxch=0, values=False, sym_reboot=False, noparked=not wakes,
